@@ -203,3 +203,98 @@ def link_kinds(seed):
     round_("L1 removed")
     a.destroy()
     return rec, d
+
+
+def restore_after_killed_sync(seed):
+    """C11 / C06: a deletion is synced into the parity but the sync dies before the final save; the same data then comes back at
+    the same positions (restore from backup, or a new file with the same bytes): the next sync must not trust the hashes of the
+    deleted blocks that the pre-save recorded, and after it check must be clean"""
+    import random
+    rng = random.Random(seed)
+    a = arr.Array(arr.Conf(nd=2, np=rng.choice([1, 2]) if False else 1, copies=2), seed=seed)
+    a.write_file(0, "A", [1, 2], mtime=11)
+    a.write_file(0, "K", [3], mtime=12)
+    a.write_file(1, "C", [4, 5, 6], mtime=13)
+    rec = recorder.Recorder(a)
+    d = ["init A K / C"]
+    r, o = rec.sync(); d.append("sync -> %s" % o["exit"])
+    a.remove(0, "A"); rec.env("delete A"); d.append("delete A")
+    a.clock += 10
+    r, o = rec.sync("--test-kill-after-sync"); d.append("sync killed after the parity update -> %s" % o["exit"])
+    if rng.random() < 0.5:
+        a.write_file(0, "A", [1, 2], mtime=11); rec.env("A restored with its bytes and stamp"); d.append("restore A")
+    else:
+        a.write_file(0, "B", [1, 2], mtime=20); rec.env("B written with the bytes A had"); d.append("write B = bytes of A")
+    r, o = rec.diff(); d.append("diff -> %s" % o["exit"])
+    a.clock += 10
+    r, o = rec.sync(); d.append("sync -> %s" % o["exit"])
+    r, o = rec.diff(); d.append("diff -> %s" % o["exit"])
+    r, o = rec.check(); d.append("check -> %s" % o["exit"])
+    a.destroy()
+    return rec, d
+
+
+def decoy_prehash(seed):
+    """C19: a decoy (same name, size and time stamp as a synced file of another disk, other content) is taken as a copy by the
+    scan; the sync that reads it reports the mismatch and leaves its blocks provisional (REP) in the content file; new files are
+    added; sync -h must stop in the pre-hash phase without touching the parity; --force-nocopy then syncs everything"""
+    import os
+    a = arr.Array(arr.Conf(nd=2, np=1, copies=2), seed=seed)
+    a.write_file(0, "A", [1, 2], mtime=11)
+    a.write_file(0, "K", [3], mtime=12)
+    a.write_file(1, "C", [4], mtime=13)
+    rec = recorder.Recorder(a)
+    d = ["init A K / C"]
+    r, o = rec.sync(); d.append("sync -> %s" % o["exit"])
+    st = os.lstat(a.path(0, "A"))
+    a.write_file(1, "A", [7, 8], mtime=11)
+    os.utime(a.path(1, "A"), ns=(st.st_mtime_ns, st.st_mtime_ns))
+    rec.env("decoy 1/A: name, size and stamp of 0/A, other content"); d.append("decoy 1/A")
+    a.clock += 10
+    r, o = rec.sync(); d.append("sync -> %s (the copy does not match)" % o["exit"])
+    a.write_file(0, "N", [9, 10], mtime=30); a.write_file(1, "M", [11], mtime=31)
+    rec.env("add N and M"); d.append("add N, M")
+    a.clock += 10
+    r, o = rec.sync("-h"); d.append("sync -h -> %s" % o["exit"])
+    r, o = rec.sync("-h"); d.append("sync -h -> %s" % o["exit"])
+    a.clock += 10
+    r, o = rec.sync("--force-nocopy"); d.append("sync --force-nocopy -> %s" % o["exit"])
+    r, o = rec.check(); d.append("check -> %s" % o["exit"])
+    a.destroy()
+    return rec, d
+
+
+def import_past_content(seed):
+    """C19 / C05: after a sync that was killed when the parity was written, a replaced file's blocks are recorded as changed with
+    the hash of the PREVIOUS occupant of their positions; the new file is lost; an import directory offers a file with the size and
+    stamp of the new file and the bytes of the old one (and the same by content): fix must rebuild the new bytes from the parity"""
+    import os, random, tempfile, shutil
+    rng = random.Random(seed)
+    a = arr.Array(arr.Conf(nd=2, np=2, copies=2), seed=seed)
+    a.write_file(0, "A", [1, 2], mtime=11)
+    a.write_file(0, "K", [3], mtime=12)
+    a.write_file(1, "C", [4, 5, 6], mtime=13)
+    rec = recorder.Recorder(a)
+    d = ["init A K / C"]
+    r, o = rec.sync(); d.append("sync -> %s" % o["exit"])
+    a.remove(0, "A"); a.write_file(0, "B", [7, 8], mtime=20)
+    rec.env("A replaced by B (same size)"); d.append("replace A by B")
+    a.clock += 10
+    r, o = rec.sync("--test-kill-after-sync"); d.append("sync killed after the parity update -> %s" % o["exit"])
+    a.remove(0, "B"); rec.env("lose B", damage=True); d.append("lose B")
+    imp = tempfile.mkdtemp(prefix="imp-", dir=os.path.dirname(a.root))
+    try:
+        with open(os.path.join(imp, "decoy"), "wb") as f:
+            f.write(a.file_bytes([1, 2]))
+        t = (arr.BASE_TIME + 20) * 10**9
+        os.utime(os.path.join(imp, "decoy"), ns=(t, t))
+        kind = rng.choice(["imp_stamp", "imp_content"])
+        r, o = rec.fix(**{kind: imp}); d.append("fix with %s = old bytes under the new stamp -> %s" % (kind, o["exit"]))
+        r, o = rec.fix(**{("imp_content" if kind == "imp_stamp" else "imp_stamp"): imp}); d.append("fix with the other import -> %s" % o["exit"])
+    finally:
+        shutil.rmtree(imp, ignore_errors=True)
+    a.clock += 10
+    r, o = rec.sync(); d.append("sync -> %s" % o["exit"])
+    r, o = rec.check(); d.append("check -> %s" % o["exit"])
+    a.destroy()
+    return rec, d
